@@ -35,10 +35,11 @@ so far first the one with the operation removed, then the circuit as is. -/
 def treeCircsL (cur : Ops α) (chunk : List Nat) : List (Ops α) :=
   chunk.foldl (fun all i => all.flatMap fun c => [popTag c i, c]) [cur]
 
-/-- Stable insertion sort by number of operations (Python's `sorted(key=num_operations)`). -/
+/-- Stable insertion sort by number of operations (Python`s `sorted(key=num_operations)`: equal
+sizes keep their order, so a new element goes BEFORE the equal ones already inserted by `foldr`). -/
 def insertByLen (c : Ops α) : List (Ops α) → List (Ops α)
   | [] => [c]
-  | d :: t => if d.length ≤ c.length then d :: insertByLen c t else c :: d :: t
+  | d :: t => if d.length < c.length then d :: insertByLen c t else c :: d :: t
 def sortByLen (l : List (Ops α)) : List (Ops α) := l.foldr insertByLen []
 
 /-- `get_tree_circs`: sorted by size, the last one (nothing deleted) dropped. -/
